@@ -481,6 +481,17 @@ func (gb *gcpBalancer) UpdateSubConnState(sc balancer.SubConn, scs balancer.SubC
 		scRef.lastResp = time.Now()
 		scRef.refreshing = false
 		scRef.refreshCnt++
+		// Affinity and fallback mappings must follow the subConnRef to its fresh SubConn.
+		for k, v := range gb.affinityMap {
+			if v == oldSc {
+				gb.affinityMap[k] = sc
+			}
+		}
+		for k, v := range gb.fallbackMap {
+			if v == oldSc {
+				gb.fallbackMap[k] = sc
+			}
+		}
 		gb.cc.RemoveSubConn(oldSc)
 	}
 
